@@ -801,7 +801,64 @@ func C07(run *report.Run) {
 	run.Rule = "versions = every assignment of {absent, value...} to the keys of the universe, each built and persisted by the real implementation; all ordered pairs; non-trivial = pairs with different roots; oracle = reach sets computed by the independent store walker + replica load"
 }
 
+// c15WriterCache: the new side is the tree of a writer that has a NodeCache attached (its
+// nodes come out of the cache as the writer's own flushed objects); the old side is opened
+// from the store without a cache. Reads are counted at the stores.
+func c15WriterCache(run *report.Run) {
+	B := ref.FormatBinary
+	acc := &pairAcc{}
+	for _, keys := range [][]interface{}{urange(1, 5), urange(0, 8)} {
+		nv := 2
+		if len(keys) > 6 {
+			nv = 1
+		}
+		plain := world.UintCfg(2, keys, nv, B, "none")
+		cached := world.UintCfg(2, keys, nv, B, "big")
+		nw := runtime.NumCPU()
+		var next int64 = -1
+		var wg sync.WaitGroup
+		var n int
+		for k := 0; k < nw; k++ {
+			wg.Add(1)
+			go func() {
+				defer wg.Done()
+				olds, err1 := allVersions(plain)
+				news, err2 := allVersions(cached)
+				if err1 != nil || err2 != nil {
+					return
+				}
+				n = len(olds)
+				for {
+					i := int(atomic.AddInt64(&next, 1))
+					if i >= len(olds) {
+						return
+					}
+					for j := range news {
+						atomic.AddInt64(&acc.pairs, 1)
+						if olds[i].link != news[j].link {
+							atomic.AddInt64(&acc.nontr, 1)
+						}
+						fs := checkDiffCost(plain, olds[i], news[j])
+						for fi := range fs {
+							fs[fi].Sig += "|new-side-from-a-caching-writer"
+						}
+						acc.add(cached, "C15", fs, []string{fmt.Sprintf("old version %v opened without cache", olds[i].c), fmt.Sprintf("new version %v: the tree of a writer with a NodeCache", news[j].c)})
+					}
+				}
+			}()
+		}
+		wg.Wait()
+		run.Parts = append(run.Parts, map[string]interface{}{"part": "new side from a caching writer, old side cache-less", "config": cached.Name, "versions": n, "ordered_pairs": n * n})
+	}
+	acc.flush(run)
+	run.Transitions += acc.pairs
+	run.Validated = run.Transitions
+	run.Evals += acc.pairs
+	run.Distinct += acc.nontr
+}
+
 func C15(run *report.Run) {
+	defer c15WriterCache(run)
 	runVersionPairsSerial(run, "C15", versionConfigs(run.Thorough()), checkDiffCost)
 	if run.Thorough() {
 		acc := &pairAcc{}
